@@ -40,7 +40,17 @@ def cinput(I, st):
     raise ValueError("unknown step kind " + k)
 
 
+def nsessions(c):
+    return max(1, int(c.get("sessions") or 1))
+
+
 def ccase(I, c):
+    if nsessions(c) > 1:      # several sessions of one handler value: every step with its session
+        steps = clist(c.get("steps") or [],
+                      lambda st: cpair(cnat(st.get("s", 0)),
+                                       cpair(cinput(I, st), clist(st.get("out") or [], lambda m: cmsg(I, m), "smsg"))),
+                      "(nat * (input * list smsg))%type")
+        return "(MMulti %s %s %s %s)" % (cnat(c["n"]), cbool(bool(c.get("fail"))), cnat(nsessions(c)), steps)
     steps = clist(c.get("steps") or [],
                   lambda st: cpair(cinput(I, st), clist(st.get("out") or [], lambda m: cmsg(I, m), "smsg")),
                   "(input * list smsg)%type")
@@ -67,6 +77,25 @@ def shrink_steps(c):
         size //= 2
     for i in range(n):
         yield dict(c, steps=steps[:i] + steps[i + 1:])
+    k = nsessions(c)
+    if k > 1:           # one session fewer: its steps go, higher session numbers move down
+        for ss in range(k):
+            st2 = []
+            for st in steps:
+                j = st.get("s", 0)
+                if j == ss:
+                    continue
+                st = dict(st)
+                st.pop("s", None)
+                j2 = j - 1 if j > ss else j
+                if j2 > 0:
+                    st["s"] = j2
+                st2.append(st)
+            c2 = dict(c, steps=st2)
+            c2.pop("sessions", None)
+            if k - 1 > 1:
+                c2["sessions"] = k - 1
+            yield c2
     if c["n"] > 2:      # one child fewer: its messages go, higher indices move down
         for ch in range(c["n"]):
             st2 = []
@@ -104,23 +133,28 @@ def shrink_steps(c):
             yield c2
 
 
-def same_id_in_flight(c):
-    """Signature of finding K1: a request (EVENT id / COUNT subscription id) is
-    submitted while an earlier request with the same id has not yet been
-    answered by every child."""
+def _in_flight_scan(c, across):
+    """across=False: a request (EVENT id / COUNT subscription id) is submitted while an earlier
+    request with the same id OF THE SAME SESSION has not yet been answered by every child.
+    across=True: ... while a request with the same id of ANOTHER session of the handler is
+    still unanswered."""
     n = c["n"]
-    pend = {}   # (kind, id) -> list of sets of children that replied, oldest first
+    pend = {}   # (session, kind, id) -> list of sets of children that replied, oldest first
     for st in c.get("steps") or []:
         k = st["k"]
+        ss = st.get("s", 0)
         if k in ("event", "count"):
-            key = (k, st.get("id", "") if k == "event" else st.get("sub", ""))
-            q = pend.setdefault(key, [])
-            if q:
+            rid = st.get("id", "") if k == "event" else st.get("sub", "")
+            if across:
+                if any(q for (s2, k2, id2), q in pend.items() if s2 != ss and k2 == k and id2 == rid):
+                    return True
+            q = pend.setdefault((ss, k, rid), [])
+            if q and not across:
                 return True
             q.append(set())
         elif k == "child" and st["m"]["t"] in ("ok", "count"):
             m = st["m"]
-            key = ("event", m.get("id", "")) if m["t"] == "ok" else ("count", m.get("sub", ""))
+            key = (ss, "event", m.get("id", "")) if m["t"] == "ok" else (ss, "count", m.get("sub", ""))
             q = pend.get(key) or []
             i = st.get("i", 0)
             for s in q:
@@ -130,6 +164,18 @@ def same_id_in_flight(c):
                         q.remove(s)
                     break
     return False
+
+
+def same_id_in_flight(c):
+    """Signature of finding K1: a request (EVENT id / COUNT subscription id) is
+    submitted while an earlier request with the same id (of the same session) has
+    not yet been answered by every child."""
+    return _in_flight_scan(c, False)
+
+
+def same_id_in_flight_across_sessions(c):
+    """Two sessions of one handler have a request with the same id in flight at the same time."""
+    return nsessions(c) > 1 and _in_flight_scan(c, True)
 
 
 def summarize(c):
@@ -146,8 +192,11 @@ def summarize(c):
         return t.upper()
 
     out = []
+    multi = nsessions(c) > 1
     for st in c.get("steps") or []:
         k = st["k"]
+        if multi:
+            out.append(None)
         if k == "child":
             head = "child%d: %s" % (st.get("i", 0), sm(st["m"]))
         elif k == "event":
@@ -156,5 +205,12 @@ def summarize(c):
             head = "client: REQ %s (%d filters)" % (st.get("sub", ""), len(st.get("fs") or []))
         else:
             head = "client: %s %s" % (k.upper(), st.get("sub", ""))
-        out.append(head + "  ->  " + (", ".join(sm(m) for m in st.get("out") or []) or "-"))
-    return {"n": c["n"], "fail": c.get("fail", ""), "history": out}
+        line = head + "  ->  " + (", ".join(sm(m) for m in st.get("out") or []) or "-")
+        if multi:
+            out[-1] = "[session %d] %s" % (st.get("s", 0), line)
+        else:
+            out.append(line)
+    res = {"n": c["n"], "fail": c.get("fail", ""), "history": out}
+    if multi:
+        res["sessions"] = nsessions(c)
+    return res
